@@ -7,6 +7,7 @@ import (
 	"encoding/hex"
 	"encoding/json"
 	"fmt"
+	"github.com/cosmos/cosmos-sdk/baseapp"
 	"hash"
 	"math/rand"
 	"runtime/debug"
@@ -129,7 +130,12 @@ func (m optMap) Get(k string) interface{} { return m[k] }
 func newAppDB(db dbm.DB) (*c4eapp.App, appparams.EncodingConfig, dbm.DB) {
 	encoding := c4eapp.MakeEncodingConfig()
 	enc := appparams.EncodingConfig(encoding)
-	app := c4eapp.New(log.NewNopLogger(), db, nil, true, map[int64]bool{}, c4eapp.DefaultNodeHome, InvCheckPeriod, enc, optMap(AppOptions))
+	var bopts []func(*baseapp.BaseApp)
+	if v, ok := AppOptions["minimum-gas-prices"].(string); ok && v != "" {
+		// the node binary hands the setting to baseapp as well (it only matters for CheckTx)
+		bopts = append(bopts, baseapp.SetMinGasPrices(v))
+	}
+	app := c4eapp.New(log.NewNopLogger(), db, nil, true, map[int64]bool{}, c4eapp.DefaultNodeHome, InvCheckPeriod, enc, optMap(AppOptions), bopts...)
 	return app, enc, db
 }
 
